@@ -22,6 +22,8 @@ CLAIMED = {
          "parse_relaxed(s, allow) for allow in {false,true} must print s; from_str must succeed exactly when the relaxed reader (no substvars) is clean and then print s; Entry/Relation::from_str results must print a substring of s. Checked on every string of length <=4 (quick) / <=6 (thorough) over 23 token representatives and on generated fields with all prefixes, single-token deletions and random mutations."),
  "C10": ("reference-model oracle: grammar-generated relationship fields (model known by construction) compared with the lossless accessors and with the lossy reader; full factorial over a relation's optional parts",
          "For each generated field the lossless reader must report no error and entries/alternatives/name/archqual/operator/version (as text and as Debian version)/architectures with negation/profile groups/substvars must equal the generator's model; the lossy reader must accept substvar-free fields and give the same structure. 3750-row factorial over archqual x version shape x operator x architectures x profile groups x position, plus random fields with free whitespace."),
+ "C11": ("model-based state-machine monitor over relation edit histories (15 operations, operands built by 5 constructors) against a list-of-lists model: live accessors, strict re-read, separator-surplus and untouched-entry invariants after every step; random histories + exhaustive short-history catalogue",
+         "After every push/insert/replace/remove (field and entry level) and every set_version/drop_constraint/set_archqual/set_architectures/add_profile through get_entry/get_relation handles, the root's printed text must parse strictly (with substvars when present) to the model, the live accessors must report the model, the count of ',' and '|' beyond what the items need must not grow, and untouched entries and substvars keep their text. Start states: empty field (3 constructors), generated fields of all layouts; all histories of length <=2 (quick) / <=3 (thorough) over 22 operations x 6 fields."),
 }
 TODO = {}
 props = [json.loads(l) for l in open("/verif/properties.jsonl")]
